@@ -280,3 +280,183 @@ func ruleN5(c *an.Ctx) {
 	}
 	c.Floor("N5", "component filter calls in rebuilding FilterJson implementations", nSites, 1)
 }
+
+// N6: validation and filtering decode a value exactly as the kind they test for.  The builtin types
+// decide "is this an int / float / string / bool" by decoding into a Go value of that kind.  Two
+// destination types of encoding/json are more liberal than the MRO types: json.Number accepts a
+// QUOTED string whose content is a number (`"12"`), and interface{} accepts anything.  Decoding the
+// `int` case through json.Number makes FilterJson pass or rewrite `"12"` / `"3.0"` although
+// IsValidJson rejects them - filtering no longer agrees with validation.
+// Rule: no json.Unmarshal / Decoder.Decode destination in the IsValidJson / FilterJson
+// implementations (and their private helpers) has a type containing json.Number or an empty
+// interface.
+func ruleN6(c *an.Ctx) {
+	n := 0
+	var scan []*ssa.Function
+	seen := map[*ssa.Function]bool{}
+	for _, method := range []string{"IsValidJson", "FilterJson"} {
+		impls := typeImpls(c, method)
+		for _, impl := range impls {
+			for _, m := range familyOfShared(c.P, impl, impls, 2) {
+				if !seen[m] {
+					seen[m] = true
+					scan = append(scan, m)
+				}
+			}
+		}
+	}
+	var liberal func(t types.Type, d int) string
+	liberal = func(t types.Type, d int) string {
+		if d > 6 {
+			return ""
+		}
+		if nm, ok := t.(*types.Named); ok {
+			if nm.Obj().Pkg() != nil && nm.Obj().Pkg().Path() == "encoding/json" {
+				if nm.Obj().Name() == "Number" {
+					return "json.Number (accepts a quoted number)"
+				}
+				return "" // RawMessage
+			}
+		}
+		switch u := t.Underlying().(type) {
+		case *types.Interface:
+			if u.NumMethods() == 0 {
+				return "interface{} (accepts any value)"
+			}
+		case *types.Pointer:
+			return liberal(u.Elem(), d+1)
+		case *types.Slice:
+			return liberal(u.Elem(), d+1)
+		case *types.Array:
+			return liberal(u.Elem(), d+1)
+		case *types.Map:
+			return liberal(u.Elem(), d+1)
+		case *types.Struct:
+			for i := 0; i < u.NumFields(); i++ {
+				if w := liberal(u.Field(i).Type(), d+1); w != "" {
+					return w
+				}
+			}
+		}
+		return ""
+	}
+	for _, fn := range scan {
+		an.Instrs(fn, func(in ssa.Instruction) {
+			cl, ok := in.(*ssa.Call)
+			if !ok || cl.Call.StaticCallee() == nil || cl.Call.StaticCallee().Pkg == nil || cl.Call.StaticCallee().Pkg.Pkg.Path() != "encoding/json" {
+				return
+			}
+			name := cl.Call.StaticCallee().Name()
+			var dst ssa.Value
+			switch {
+			case name == "Unmarshal" && len(cl.Call.Args) == 2:
+				dst = cl.Call.Args[1]
+			case name == "Decode" && len(cl.Call.Args) == 2:
+				dst = cl.Call.Args[1]
+			default:
+				return
+			}
+			mi, ok := dst.(*ssa.MakeInterface)
+			if !ok {
+				return
+			}
+			n++
+			why := liberal(mi.X.Type(), 0)
+			c.Check("N6", "decoded-as-the-kind-it-tests("+mi.X.Type().String()+")@"+an.FnName(fn), in.Pos(), why == "",
+				"a value is decoded into "+why+" while being validated or filtered: the decoder accepts JSON that the declared MRO type does not (a string holding a number for int), so the filter passes or rewrites values that validation rejects")
+		})
+	}
+	c.Floor("N6", "JSON decode sites in IsValidJson/FilterJson implementations", n, 4)
+}
+
+// N7: a struct is assignable exactly when its members are.  StructType.IsAssignableFrom walks the
+// members and delegates to the member types; in addition it compares the members' TypeId
+// dimensions itself.  ArrayDim must agree exactly, but MapDim == 0 also covers the builtin `map`
+// (which accepts any typed map) and every struct (which a typed map accepts member-wise): a
+// rejection for differing MapDim that is not backed by the member types' own IsAssignableFrom
+// makes `A(map x, map<int> y)` reject `B(map<int> x, INNER y)` although both member pairs are
+// assignable.  Rule: in StructType.IsAssignableFrom every edge on which two MapDim fields differ
+// (an `!=` of two loads of TypeId.MapDim) lies in a condition that also requires a non-nil result
+// of an IsAssignableFrom call, or is preceded by one on every path.
+func ruleN7(c *an.Ctx) {
+	p := c.P
+	fn := c.NeedFunc(pkgSyntax, "(*StructType).IsAssignableFrom")
+	mapDim := p.Field(pkgSyntax, "TypeId", "MapDim")
+	if fn == nil || mapDim == nil {
+		return
+	}
+	isAssignCall := func(v ssa.Value) bool {
+		cl, ok := v.(*ssa.Call)
+		if !ok {
+			return false
+		}
+		if cl.Call.IsInvoke() {
+			return cl.Call.Method.Name() == "IsAssignableFrom"
+		}
+		return cl.Call.StaticCallee() != nil && cl.Call.StaticCallee().Name() == "IsAssignableFrom"
+	}
+	n := 0
+	for _, m := range familyOf(p, fn, 2) {
+		for _, b := range m.Blocks {
+			for _, s := range b.Succs {
+				cnd, t, ok := an.EdgeCond(b, s)
+				if !ok {
+					continue
+				}
+				r := an.Normalize(cnd, t)
+				if r.Op != token.NEQ || !an.LoadsField(r.X, mapDim) || !an.LoadsField(r.Y, mapDim) {
+					continue
+				}
+				n++
+				// the rejection: error appends reachable from this edge before the member loop continues must be
+				// dominated by a failed member-type comparison
+				var bad ssa.Instruction
+				seen := map[*ssa.BasicBlock]bool{}
+				var walk func(x *ssa.BasicBlock, confirmed bool)
+				walk = func(x *ssa.BasicBlock, confirmed bool) {
+					if seen[x] || bad != nil {
+						return
+					}
+					seen[x] = true
+					for _, in := range x.Instrs {
+						if v, ok := in.(ssa.Value); ok {
+							if args, isApp := an.IsBuiltinCall(v, "append"); isApp && len(args) > 0 {
+								if nm, ok := args[0].Type().(*types.Named); ok && nm.Obj().Name() == "ErrorList" && !confirmed {
+									bad = in
+									return
+								}
+							}
+						}
+					}
+					for _, y := range x.Succs {
+						c2, t2, ok2 := an.EdgeCond(x, y)
+						conf := confirmed
+						if ok2 {
+							r2 := an.Normalize(c2, t2)
+							if r2.Op == token.NEQ && an.IsNil(r2.Y) && isAssignCall(r2.X) {
+								conf = true
+							}
+							// leaving the MapDim arm again (dims compared elsewhere) is not followed
+							if r2.Op == token.EQL && an.IsNil(r2.Y) && isAssignCall(r2.X) {
+								continue
+							}
+						}
+						// stop at the loop back edge / other members: only blocks dominated by s
+						if !s.Dominates(y) {
+							continue
+						}
+						walk(y, conf)
+					}
+				}
+				walk(s, false)
+				where := ""
+				if bad != nil {
+					where = c.P.Pos(bad.Pos())
+				}
+				c.Check("N7", "member-map-dimension-mismatch-backed-by-member-types@"+an.FnName(m), s.Instrs[0].Pos(), bad == nil,
+					"a struct is rejected as a source because two members differ in TypeId.MapDim ("+where+") without the member types' own IsAssignableFrom having failed: `map` accepts a typed map and a typed map accepts a struct member-wise, so the struct relation is stricter than its components")
+			}
+		}
+	}
+	c.Floor("N7", "MapDim comparisons in StructType.IsAssignableFrom", n, 1)
+}
